@@ -198,3 +198,62 @@ func exact(b []byte) []byte {
 
 // Exact is exact for other packages.
 func Exact(b []byte) []byte { return exact(b) }
+
+// Deep is the part of the deviation-1 neighbourhood that lies beyond the header region H of
+// Neighbourhood: for every position from H to the end of the seed (at most Cap), the length-field
+// deviations only - every 16-bit window, both byte orders, overwritten with
+// {0,1,len,len-1,len+1,max,0xfff8} - and the byte replaced by {0, 0xff, b+1, b-1, b^0x80}. Lists,
+// TLVs and extensions of application protocols sit hundreds of bytes into a message; their
+// length arithmetic is what these reach.
+type Deep struct {
+	H, Cap int
+}
+
+const deepWin = 7
+const deepSub = 5
+
+var deepVals = [deepSub]int{0, 0xff, 256, 257, 258}
+
+func (d Deep) span(l int) (from, n int) {
+	l = min(l, d.Cap)
+	if l <= d.H {
+		return d.H, 0
+	}
+	return d.H, l - d.H
+}
+
+func (d Deep) Count(l int) int64 {
+	_, n := d.span(l)
+	return int64(n) * (deepWin*2 + deepSub)
+}
+
+func (d Deep) Variant(s []byte, j int64) []byte {
+	from, _ := d.span(len(s))
+	per := int64(deepWin*2 + deepSub)
+	pos, k := from+int(j/per), int(j%per)
+	out := exact(s)
+	if k < deepWin*2 {
+		// the window that ENDS at pos (the quick neighbourhood covered the ones ending before H)
+		v := uint16(0xfff8)
+		if k/2 < winVals {
+			v = uint16(winVal(k/2, len(s), 16))
+		}
+		if k%2 == 1 {
+			binary.LittleEndian.PutUint16(out[pos-1:], v)
+		} else {
+			binary.BigEndian.PutUint16(out[pos-1:], v)
+		}
+		return out
+	}
+	switch v := deepVals[k-deepWin*2]; v {
+	case 256:
+		out[pos]++
+	case 257:
+		out[pos]--
+	case 258:
+		out[pos] ^= 0x80
+	default:
+		out[pos] = byte(v)
+	}
+	return out
+}
